@@ -2,6 +2,7 @@ import Sylvia.Driver.ProgParse
 import Sylvia.Model.EntryPoints
 import Sylvia.Model.Strip
 import Sylvia.Model.Dispatch
+import Sylvia.Model.Runtime
 /-! Driver operations over the current program. -/
 namespace Driver
 open Sylvia Gen
@@ -137,6 +138,55 @@ def opSer (st : State) (rest : String) : String :=
     | _, _ => "bad-op"
   | _ => "bad-op"
 
+def utf8OfHex (s : String) : String :=
+  (String.fromUTF8? (ByteArray.mk ((unhexBytes s).map (·.toUInt8)).toArray)).getD ""
+
+def opRemote (rest : String) : String :=
+  match splitN rest 3 with
+  | [_idx, mode, addr] =>
+    let r : Runtime.Remote Unit := { addr := utf8OfHex addr, own := if mode == "owned" then .owned else .borrowed }
+    let back := ((Runtime.Remote.decode Unit r.encode).map (·.addr)) == some r.addr
+    r.encode.render ++ " back=" ++ toString back ++ " schema=" ++ Runtime.Remote.schemaName Unit
+  | _ => "bad-op"
+
+def opRemoteDe (rest : String) : String :=
+  match splitN rest 2 with
+  | [_idx, json] =>
+    match parseJsonPrefix json with
+    | some (d, false) =>
+      match Runtime.Remote.decode Unit d with
+      | some r => "ok " ++ (Json.str r.addr).render
+      | none => "err"
+    | _ => "err"
+  | _ => "bad-op"
+
+def msgKindOf : String → Option Runtime.MsgKind
+  | "bank" | "burn" => some .bank | "wasm" | "wasm_inst" => some .wasm | "custom" => some .custom
+  | "staking" => some .staking | "distribution" => some .distribution | "ibc" | "ibc_transfer" => some .ibc
+  | "gov" => some .gov | "any" => some .any | "stargate" => some .stargate | _ => none
+
+def opIntoResp (rest : String) : String :=
+  match parseJson rest with
+  | none => "bad-spec"
+  | some j =>
+    let msgs := (jarr (jget j "msgs")).filterMap fun m =>
+      (msgKindOf (jstr (jget m "kind"))).map fun k =>
+        ({ id := jnat (jget m "id"), payload := jstr (jget m "payload"), kind := k, content := jstr (jget m "n"),
+           gasLimit := match jget m "gas" with | .num t => t.toNat? | _ => none,
+           replyOn := match jstr (jget m "reply_on") with
+             | "always" => .always | "success" => .success | "error" => .error | _ => .never } : Runtime.SubMsg)
+    let r : Runtime.Response :=
+      { messages := msgs,
+        attributes := (jarr (jget j "attrs")).map fun a => match a with | .arr [k, v] => (jstr k, jstr v) | _ => ("", ""),
+        events := (jarr (jget j "events")).map fun e => match e with
+          | .arr [t, .arr as] => (jstr t, as.map fun a => match a with | .arr [k, v] => (jstr k, jstr v) | _ => ("", ""))
+          | _ => ("", []),
+        data := match jget j "data" with | .str s => some s | _ => none }
+    match Runtime.intoResponse Extracted.convertible r with
+    | .ok out => "ok same=" ++ toString (decide (out = r)) ++ " msgs=" ++ toString out.messages.length
+    | .error .customEmpty => "err Generic error: Custom Empty message should not be sent"
+    | .error .unknownVariant => "err unknown-variant"
+
 def step (st : State) (line : String) : State × Option String :=
   let (op, rest) := splitOp line
   match op with
@@ -151,6 +201,9 @@ def step (st : State) (line : String) : State × Option String :=
   | "reset" => ({}, some "ok")
   | "ep" => (st, some (opEp st))
   | "strip" => (st, some (opStrip rest))
+  | "remote" => (st, some (opRemote rest))
+  | "remote-de" => (st, some (opRemoteDe rest))
+  | "intoresp" => (st, some (opIntoResp rest))
   | "lists" => (st, some (opLists st rest))
   | "de" => (st, some (opDe st rest))
   | "dew" => (st, some (opDew st rest))
